@@ -216,18 +216,29 @@ def _skipsets(run, P, C):
                     return blk
         return []
 
-    def grows_only_on_emission(name):
+    def marks_current_only(name):
+        """Every S.add(v): v is the statement being expanded (popped from the stack, the
+        top of the stack, the parameter of the recursive helper) or one that is emitted in
+        the same block - never the variable of a loop over dependencies / requests, which
+        would mark a statement that is only being pushed."""
         adds = [(u, x) for u in units for x in ast.walk(u.node)
                 if isinstance(x, ast.Call) and isinstance(x.func, ast.Attribute)
                 and x.func.attr in ("add", "append", "update", "extend") and dotted(x.func.value) == name]
         if not adds:
             return False
         for u, x in adds:
-            blk = block_of(u, x)
-            arg = norm(x.args[0]) if x.args else None
-            if not any(any(e is y for y in ast.walk(b)) and norm(e.args[0]) == arg
-                       for b in blk for e in emits):
+            if x.func.attr in ("update", "extend") or not x.args or not isinstance(x.args[0], ast.Name):
                 return False
+            v = x.args[0].id
+            blk = block_of(u, x)
+            if any(any(e is y for y in ast.walk(b)) and norm(e.args[0]) == v for b in blk for e in emits):
+                continue
+            for lp in ast.walk(u.node):
+                if isinstance(lp, (ast.For, ast.ListComp, ast.GeneratorExp, ast.SetComp)):
+                    tg = [lp.target] if isinstance(lp, ast.For) else [g_.target for g_ in lp.generators]
+                    if any(isinstance(y, ast.Name) and y.id == v for t_ in tg for y in ast.walk(t_)) \
+                            and any(x is y for y in ast.walk(lp)):
+                        return False
         return True
 
     n = 0
@@ -250,16 +261,81 @@ def _skipsets(run, P, C):
                 continue                  # second visit: the statement is put on the plan here
             cont = dotted(test.comparators[0])
             ok = cont in ("self.executed_ids", batch) or (cont is not None and "." not in cont
-                                                         and grows_only_on_emission(cont))
+                                                         and marks_current_only(cont))
             n += 1
             run.ob("C04.post", u, t, ok,
                    construct=f"a statement is passed over when it is in '{cont}', which holds "
-                             f"only statements that are executed or already on the new plan",
-                   why="a statement that was only seen (pushed, being expanded) is not yet in "
-                       "front of what needs it: skipping it there plans a statement before "
-                       "one of its dependencies (n -> {t, s}, t -> s)")
-    if n < 2:
+                             f"only statements that are executed, on the new plan, or being "
+                             f"expanded (never one that is merely waiting on the stack)",
+                   why="a statement that was only pushed is not yet in front of what needs "
+                       "it: skipping it there plans a statement before one of its "
+                       "dependencies (n -> {t, s}, t -> s)")
+    if n < 1:
         raise AnalysisError("update_plan: the done / already-planned exits were not found")
+    # every id that enters the traversal is checked against the executed set
+    cur_tests = [t for u in units for t in ast.walk(u.node) if isinstance(t, ast.Compare)
+                 and len(t.ops) == 1 and isinstance(t.ops[0], (ast.In, ast.NotIn))
+                 and dotted(t.comparators[0]) == "self.executed_ids"]
+    stacks = {dotted(x.func.value) for u in units for x in ast.walk(u.node)
+              if isinstance(x, ast.Call) and isinstance(x.func, ast.Attribute)
+              and x.func.attr == "pop" and isinstance(x.func.value, ast.Name)
+              and dotted(x.func.value) != batch}
+    stacks |= {x.value.id for u in units for x in ast.walk(u.node)
+               if isinstance(x, ast.Subscript) and isinstance(x.value, ast.Name)
+               and isinstance(x.slice, ast.UnaryOp) and isinstance(x.ctx, ast.Load)}
+    if stacks:
+        for stk in sorted(stacks):
+            # names bound from the stack
+            curs = set()
+            for u in units:
+                for a_ in ast.walk(u.node):
+                    if isinstance(a_, ast.Assign) and any(
+                            (isinstance(y, ast.Call) and isinstance(y.func, ast.Attribute)
+                             and y.func.attr == "pop" and dotted(y.func.value) == stk)
+                            or (isinstance(y, ast.Subscript) and dotted(y.value) == stk)
+                            for y in ast.walk(a_.value)):
+                        for t_ in a_.targets:
+                            curs |= {y.id for y in ast.walk(t_) if isinstance(y, ast.Name)}
+            at_pop = any(isinstance(t.left, ast.Name) and t.left.id in curs for t in cur_tests)
+            pushes = []
+            for u in units:
+                for x in ast.walk(u.node):
+                    if isinstance(x, ast.Assign) and any(dotted(t_) == stk for t_ in x.targets):
+                        pushes.append(x.value)
+                    if isinstance(x, ast.Call) and isinstance(x.func, ast.Attribute) \
+                            and dotted(x.func.value) == stk and x.func.attr in ("append", "extend"):
+                        pushes.append(x)
+            unfiltered = [p_ for p_ in pushes
+                          if not any(any(t is y for y in ast.walk(p_)) for t in cur_tests)
+                          and not (isinstance(p_, (ast.List, ast.Tuple)) and not p_.elts)
+                          and not _repush(p_, curs)]
+            # a push inside a loop / function whose variable is tested there counts as filtered
+            still = []
+            for p_ in unfiltered:
+                names_ = {y.id for y in ast.walk(p_) if isinstance(y, ast.Name)}
+                tested_here = any(isinstance(t.left, ast.Name) and t.left.id in names_ for t in cur_tests)
+                if not tested_here:
+                    still.append(p_)
+            ok = at_pop or not still
+            run.ob("C04.post", up, still[0] if still and not at_pop else up.node, ok,
+                   construct=f"every id put on '{stk}' is checked against self.executed_ids "
+                             f"(when taken off, or wherever it is put on)"
+                             + (f" (not: {norm(still[0], 50)})" if not ok else ""),
+                   why="a request that names a statement already executed in this step would "
+                       "run it a second time (and a statement that requests itself would never "
+                       "terminate)")
+
+
+def _repush(p_, curs):
+    """stack.append((cur, True)) - the statement being expanded goes back for emission."""
+    if isinstance(p_, ast.Call) and p_.args:
+        names_ = {y.id for y in ast.walk(p_.args[0]) if isinstance(y, ast.Name)}
+        return bool(names_) and names_ <= curs
+    return False
+
+
+def _unused_marker():
+    pass
 
 
 def _front(run, P, C):
